@@ -169,6 +169,37 @@ func main() {
 			kv.WriteResult(*out, res)
 		}
 		fmt.Fprintf(stdout, "shell: cases=%d nontrivial=%d disagreements=%d counters=%v\n", res.Evaluations, res.DistinctNontrivial, res.DisagreementCount, res.Counters)
+	case "ons":
+		fs := flag.NewFlagSet("ons", flag.ExitOnError)
+		driver := fs.String("driver", "", "path to olpdriver")
+		seed := fs.Uint64("seed", 1, "seed")
+		hist := fs.Int("histories", 10, "histories")
+		blocks := fs.Int("blocks", 20, "blocks per history")
+		maxtx := fs.Int("maxtxs", 5, "max txs per block")
+		corpus := fs.String("corpus", "", "corpus dir (*.hist replayed first)")
+		out := fs.String("out", "", "result json")
+		replay := fs.String("replay", "", "replay one history file")
+		debug := fs.Bool("debug", false, "print every op and log")
+		fs.Parse(os.Args[2:])
+		stdout := apph.SilenceAppLogs()
+		if *replay != "" {
+			rc := apph.ReplayOns(*driver, *replay, stdout)
+			apph.Cleanup()
+			os.Exit(rc)
+		}
+		res, err := apph.RunOns(apph.OnsOptions{Driver: *driver, Seed: *seed, Histories: *hist, Blocks: *blocks, MaxTxs: *maxtx, Corpus: *corpus, Debug: *debug})
+		apph.Cleanup()
+		if err != nil {
+			fmt.Fprintln(stdout, "olh ons:", err)
+			os.Exit(2)
+		}
+		if *out != "" {
+			if err := kv.WriteResult(*out, res); err != nil {
+				fmt.Fprintln(stdout, err)
+				os.Exit(2)
+			}
+		}
+		fmt.Fprintf(stdout, "ons: cases=%d nontrivial=%d disagreements=%d monitor=%v counters=%v\n", res.Evaluations, res.DistinctNontrivial, res.DisagreementCount, res.MonitorHitCount, res.Counters)
 	case "twin", "dropfailed", "inject", "crash":
 		fs := flag.NewFlagSet(os.Args[1], flag.ExitOnError)
 		_ = fs.String("driver", "", "path to olpdriver")
